@@ -171,7 +171,7 @@ impl FeeRateManager {
     proof { if let FeeRateManager::Adaptive { adaptive_fee_constants, adaptive_fee_variables, .. } = *self { lemma_adaptive_rate_bounds(adaptive_fee_constants, adaptive_fee_variables); } }
 //@ end
 
-//@ fn manager/fee_rate_manager.rs update_volatility_accumulator in=/^impl FeeRateManager \{/ -> r
+//@ fn manager/fee_rate_manager.rs update_volatility_accumulator in=/^impl FeeRateManager \{/ -> r canary
     requires old(self).wf(),
     ensures r is Ok, final(self).wf(),
         *old(self) is Static ==> *final(self) == *old(self),
@@ -189,7 +189,7 @@ impl FeeRateManager {
             *final(self) == (FeeRateManager::Adaptive { a_to_b, tick_group_index: (tick_group_index + (if a_to_b { -1int } else { 1int })) as i32, static_fee_rate, adaptive_fee_constants, adaptive_fee_variables, core_tick_group_range_lower_bound, core_tick_group_range_upper_bound }),
 //@ end
 
-//@ fn manager/fee_rate_manager.rs get_next_adaptive_fee_info in=/^impl FeeRateManager \{/ -> r
+//@ fn manager/fee_rate_manager.rs get_next_adaptive_fee_info in=/^impl FeeRateManager \{/ -> r canary
     ensures
         *self is Static ==> r is None,
         *self matches FeeRateManager::Adaptive { adaptive_fee_constants, adaptive_fee_variables, .. } ==>
